@@ -310,7 +310,7 @@ def _configs(name, tier):
             out.append({"substream": {"content": content}, "end_of_file": 2048 * nsec, "sector_length": 2048})
     elif base == "StreamReversed":
         w = int(name.split("=")[1][:-1]) if "[" in name else None
-        for ww in ([w] if w else (1, 2, 3)):
+        for ww in ([w] if w else (3, 5, 6)):
             for rows in (1, 2, 3):
                 n = ww * rows + 1
                 out.append({"substream": {"content": list(range(10, 10 + n))}, "end_of_file": ww * rows, "sample_width": ww})
